@@ -238,6 +238,7 @@ func checkC10(c c10Case) *evid.Fail {
 				r1, e1 = t1.EvaluateWithVariables(m)
 			}
 			t2 := mustache.NewMustacheTemplate()
+			t2.SetTemplate("held before: {{zz}} {{#q}}w{{/q}}") // the token-list entry replaces what the object held
 			if e2 = t2.SetOriginalTokens(t.OriginalTokens()); e2 == nil {
 				r2, e2 = t2.EvaluateWithVariables(m)
 			}
@@ -692,6 +693,15 @@ func checkC10Seq(c c10SeqCase) *evid.Fail {
 	}
 	if dc {
 		return nil
+	}
+	// the same text submitted again to the same object gets the same verdict
+	var err2 error
+	if g := guard(func() { err2 = t.SetTemplate(src) }); g != nil {
+		g.Msg = fmt.Sprintf("SetTemplate(%q) a second time: %s", src, g.Msg)
+		return g
+	}
+	if (err == nil) != (err2 == nil) {
+		return evid.F("resubmission-differs", "template %q: the first SetTemplate gives %v, the second on the same object %v", src, err, err2)
 	}
 	if ok && err != nil {
 		return evid.F("well-formed-rejected", "template %q is well-formed but was rejected: %v", src, err)
